@@ -13,7 +13,8 @@ except Exception:
 for p in props:
     pid = p["id"]
     cf = os.path.join(V, "checks", pid + ".json")
-    if not os.path.exists(cf):
+    ready = set(open(os.path.join(V, "checks", "READY")).read().split()) if os.path.exists(os.path.join(V, "checks", "READY")) else None
+    if not os.path.exists(cf) or (ready is not None and pid not in ready):
         reason = "check not built yet (work in progress; see DESIGN.md section 6)"
         nf = os.path.join(V, "checks", pid + ".na")
         if os.path.exists(nf):
